@@ -141,6 +141,9 @@ def gen_flags(rng, lim):
         f["ext"] = rng.choice(["rs", "py,go", "rs,js"])
     if rng.random() < 0.15:
         f["exclude"] = [rng.choice(["**/tests/**", "*.py", "**/a/**"])]
+    if f["baseline"] and rng.random() < 0.35:
+        # fail-fast with a baseline: a grandfathered failure must not stop the run before a new violator is seen
+        f["fail_fast"] = True
     if f["baseline"] and rng.random() < 0.4:
         # the ratchet can fail the run (strict + stale entry) but never under --warn-only
         f["ratchet"] = rng.choice(["warn", "strict", "strict", "auto"])
